@@ -37,7 +37,8 @@ ASSUMPTIONS = [
     'scope: an element is in a component when the component is reached from its package / component through parents '
     '(R8000, R8001, R8003) and through packages that refer to a package on the way (R1402); chains of references '
     '(a referring package that is itself only referred to) are not generated',
-    'edit scripts of length <= 2 (quick) / 3 (thorough) on Simple_Model and <= 1 / 2 on the rich diagram; values per site from '
+    'edit scripts of length <= 2 (quick) / 3 (thorough) on Simple_Model, <= 1 / 2 on the rich diagram and <= 1 on the packaging and '
+    'structs diagrams; values per site from '
     'small palettes rotated by VERIF_SEED',
     'supported types: the core types boolean, integer, real, string, unique_id, enumerations, and user types over them; '
     'attributes of any other type (structured data types, user types that unwrap to one, instance references, date over '
@@ -84,12 +85,12 @@ TOUCHED = {
 PLAN = {
     'quick': [('pack', 'lean', 1, 0, 99, None), ('structs', 'quick', 1, 0, 99, None), ('simple2', 'quick', 1, 1, 99, 0), ('rich', 'quick', 1, 0, 99, 0),
               ('simple', 'quick', 2, 1, 99, 3)],
-    'thorough': [('pack', 'quick', 1, 1, 99, 4), ('structs', 'quick', 2, 1, 99, 4), ('simple2', 'quick', 2, 1, 99, 4), ('rich', 'lean', 2, 1, 99, 4), ('simple', 'lean', 3, 1, 2, 6),
+    'thorough': [('pack', 'quick', 1, 1, 99, 4), ('structs', 'full', 1, 1, 99, 4), ('simple2', 'quick', 2, 1, 99, 4), ('rich', 'lean', 2, 1, 99, 4), ('simple', 'lean', 3, 1, 2, 6),
                  ('simple', 'full', 2, 0, 99, None)],
 }
 # start models on which every API-level ("live") edit of the menu is applied to the loaded metamodel
 LIVE = {'quick': [('pack', 'lean'), ('structs', 'quick'), ('simple2', 'quick')],
-        'thorough': [('pack', 'quick'), ('structs', 'quick'), ('simple2', 'quick'), ('rich', 'lean'), ('simple', 'full')]}
+        'thorough': [('pack', 'quick'), ('structs', 'full'), ('simple2', 'quick'), ('rich', 'lean'), ('simple', 'full')]}
 # quick tier: on these start models only the attribute-level live edits run (the packaging-level ones run on the others)
 LIVE_ONLY = {'quick': {'structs': ('retype_attr', 'add_attr', 'set_derived', 'rename_attr')}, 'thorough': {}}
 TYPES_LEAN = ['My_Enum', 'inst_ref<Object>', 'Price']
